@@ -1,5 +1,6 @@
 import SleapVerif.Lemmas.Oks
 import SleapVerif.Lemmas.OksMatch
+import SleapVerif.Lemmas.OksVec
 
 /-!
 # C15 — OKS and instance matching obey their mathematical contracts
@@ -307,5 +308,57 @@ theorem iou_symm (x1 y1 X1 Y1 x2 y2 X2 Y2 : R) :
 
 example : iou (R := Rat) (0, 0, 3, 3) (2, 2, 5, 5) = 1/7 := by decide +kernel
 example : greedyLoop [(0, 1), (0, 0), (1, 1), (1, 0)] = [(0, 1), (1, 0)] := by decide
+
+/-! ## `compute_cosine_sim`, `compute_euclidean_distance` -/
+
+/-- **Cosine similarity ∈ [−1, 1]** (Cauchy–Schwarz) for non-zero vectors (for a zero vector the code
+divides by 0 and returns NaN; `np.dot` already rejects different lengths). -/
+theorem cosine_range (a b : List R) (ha : 0 < dot a a) (hb : 0 < dot b b) :
+    -1 ≤ cosine T.sqrt a b ∧ cosine T.sqrt a b ≤ 1 := by
+  have hd : 0 < T.sqrt (dot a a) * T.sqrt (dot b b) := mul_pos (T.sqrt_pos ha) (T.sqrt_pos hb)
+  obtain ⟨h1, h2⟩ := abs_le.mp (abs_dot_le T a b)
+  unfold cosine
+  exact ⟨by rw [le_div_iff₀ hd]; simpa [norm'] using h1, by rw [div_le_one hd]; simpa [norm'] using h2⟩
+
+theorem cosine_symm (a b : List R) : cosine T.sqrt a b = cosine T.sqrt b a := by
+  unfold cosine; rw [dot_comm a b, mul_comm]
+
+theorem cosine_self (a : List R) (ha : 0 < dot a a) : cosine T.sqrt a a = 1 := by
+  unfold cosine
+  rw [T.sq_sqrt _ ha.le]; exact div_self (ne_of_gt ha)
+
+/-- `compute_euclidean_distance` returns `−‖a − b‖`: the distance `−(…)` is non-negative, -/
+theorem euclid_nonneg (a b : List R) : 0 ≤ -(negEuclid T.sqrt a b) := by
+  rw [negEuclid_eq, neg_neg]; exact norm'_nonneg T _
+
+/-- zero exactly for equal vectors, -/
+theorem euclid_eq_zero_iff (a b : List R) (h : a.length = b.length) :
+    negEuclid T.sqrt a b = 0 ↔ a = b := by
+  rw [negEuclid_eq, neg_eq_zero, ← vsub_self_zero_iff a b h]
+  constructor
+  · intro h0
+    have : dot (vsub a b) (vsub a b) = 0 := by rw [← norm'_sq T, h0, mul_zero]
+    exact dot_self_eq_zero _ this
+  · intro hz
+    have : dot (vsub a b) (vsub a b) = 0 := by
+      generalize vsub a b = l at hz
+      induction l with
+      | nil => exact dot_nil_left _
+      | cons x t ih =>
+        rw [dot_cons, hz x List.mem_cons_self, ih (fun y hy => hz y (List.mem_cons_of_mem _ hy))]; simp
+    unfold norm'; rw [this]; exact T.sqrt_zero
+
+/-- symmetric, -/
+theorem euclid_symm (a b : List R) : negEuclid T.sqrt a b = negEuclid T.sqrt b a := by
+  rw [negEuclid_eq, negEuclid_eq]; unfold norm'; rw [dot_vsub_comm]
+
+/-- and satisfies the **triangle inequality** (used by C10's bridging argument). -/
+theorem euclid_triangle (a b c : List R) (h1 : a.length = b.length) (h2 : b.length = c.length) :
+    -(negEuclid T.sqrt a c) ≤ -(negEuclid T.sqrt a b) + -(negEuclid T.sqrt b c) := by
+  rw [negEuclid_eq, negEuclid_eq, negEuclid_eq, neg_neg, neg_neg, neg_neg, vsub_eq_vadd a b c h1 h2]
+  apply norm'_vadd_le
+  simp [vsub, h1, h2]
+
+example : 0 < dot (R := Rat) [3, 4] [3, 4] := by decide +kernel
 
 end SleapVerif.C15
